@@ -1615,7 +1615,9 @@ func (c *simCtx) explore(start *ssa.BasicBlock, stop map[*ssa.BasicBlock]bool) m
 			if stop[b] {
 				return
 			}
-			if _, isHdr := blocked[b]; isHdr && from != nil && seen[b] {
+			if _, isHdr := blocked[b]; isHdr && from != nil && seen[b] && (b.Dominates(from) || len(rotatedGuardOf(b)) > 0) {
+				// reached again from inside the loop (a re-walk of the way in under other tracked
+				// values is not an iteration)
 				backEdge[b] = true
 			}
 			// select the incoming values of b's tracked phis
@@ -1630,7 +1632,21 @@ func (c *simCtx) explore(start *ssa.BasicBlock, stop map[*ssa.BasicBlock]bool) m
 					if !isErrorType(ph.Type()) {
 						bt, isB := ph.Type().Underlying().(*types.Basic)
 						if !isB {
-							continue
+							// a slice / pointer / map that starts out nil (built lazily in the first pass of a
+							// loop): tracked so that `x == nil` is decided on the path where it still is nil
+							nilStart := false
+							switch ph.Type().Underlying().(type) {
+							case *types.Slice, *types.Pointer, *types.Map:
+								for _, e := range ph.Edges {
+									if isNilConst(e) {
+										nilStart = true
+									}
+								}
+							}
+							if !nilStart {
+								continue
+							}
+							bt = types.Typ[types.Bool] // handled like a flag below
 						}
 						if bt.Kind() != types.Bool {
 							// numbers too (minIndex := 0 or -2^z chosen by a flag), but not loop counters
@@ -1643,7 +1659,28 @@ func (c *simCtx) explore(start *ssa.BasicBlock, stop map[*ssa.BasicBlock]bool) m
 									loopHdr = true
 								}
 							}
-							if loopHdr {
+							if loopHdr && !constStatePhi(ph, 0, map[*ssa.Phi]bool{}) {
+								// a counter or state variable: only its constant initial value is tracked (the
+								// first pass of the loop is decided, later passes are not)
+								for k, pred := range b.Preds {
+									if pred != from || k >= len(ph.Edges) {
+										continue
+									}
+									if !changedEnv {
+										n := map[*ssa.Phi]ssa.Value{}
+										for p2, v2 := range c.phiSel {
+											n[p2] = v2
+										}
+										c.phiSel = n
+										changedEnv = true
+									}
+									if _, isK := ph.Edges[k].(*ssa.Const); isK && !b.Dominates(pred) {
+										c.phiSel[ph] = ph.Edges[k]
+									} else {
+										delete(c.phiSel, ph)
+									}
+									break
+								}
 								continue
 							}
 						}
@@ -2375,6 +2412,44 @@ func countedLoopsOver(f *ssa.Function, list ssa.Value) map[*ssa.BasicBlock]*ssa.
 		}
 	}
 	return out
+}
+
+// rotatedGuardOf: b is the guard block in front of a rotated loop (its successor is a
+// loop header that b does not belong to): non-nil when b has such a successor.
+func rotatedGuardOf(b *ssa.BasicBlock) []*ssa.BasicBlock {
+	var out []*ssa.BasicBlock
+	for _, s := range b.Succs {
+		for _, p := range s.Preds {
+			if p != b && s.Dominates(p) {
+				out = append(out, s)
+			}
+		}
+	}
+	return out
+}
+
+// constStatePhi: every value the phi can take is a constant (directly or through
+// phis of constants): the state variable of a state machine, not a counter.
+func constStatePhi(p *ssa.Phi, depth int, seen map[*ssa.Phi]bool) bool {
+	if depth > 6 {
+		return false
+	}
+	if seen[p] {
+		return true
+	}
+	seen[p] = true
+	for _, e := range p.Edges {
+		switch x := e.(type) {
+		case *ssa.Const:
+		case *ssa.Phi:
+			if !constStatePhi(x, depth+1, seen) {
+				return false
+			}
+		default:
+			return false
+		}
+	}
+	return true
 }
 
 // rotatedLoop: the form go/ssa gives `for i := range len(list)` (and range n):
